@@ -155,7 +155,7 @@ def vec_loop(recv, recv_spec, method, ty, extra_inv):
         }""" % {"recv": recv, "spec": recv_spec, "sn": snake(ty), "ty": ty, "m": method, "extra": extra_inv})
 
 
-def generate(types, exp, emit_item):
+def generate(types, exp, emit_item, leaf_ok=(), emit_leaf_defaults=False):
     """types: list of parsed type defs (with "rel", "lines", "sha" of the definition). exp: expansion text.
     Returns the text of the common part (trait, VNode, vp_* helpers); calls emit_item(tdef, text, rewrites, clauses) per
     verified function in order and collects their text after the common part through the callback's return."""
@@ -308,7 +308,56 @@ def generate(types, exp, emit_item):
         text = "\n".join(spec) + ("\n" if spec else "")
         text += "impl %s {\n%s\n    ensures\n        %s\n%s\n}\n" % (T, sig2, "\n        ".join(ens), body)
         items.append((td, text, rewrites, ens))
+        # the trait's default method for this node type (visitor.rs `dispatch!`): a type with traversed children must be
+        # handed to its generated traversal -- same contract as T::recurse_visit
+        d = default_method(exp_src, "Visitor", m_by_type.get(T), T)
+        if d is not None:
+            dsig, dbody = d
+            dens = [e.replace("*self", "*node") for e in ens]
+            has_kids = any((not c["ignored"]) and c["cont"] != "Unit" for c in td["children"])
+            if not has_kids or T in leaf_ok:
+                # nothing to traverse (or a recorded exception): either form of default is fine; state what each does
+                if "recurse_visit" not in dbody:
+                    dens = ["r is Ok && final(v).log() == old(v).log(),"]
+            dtext = "pub fn default_%s<V: Visitor<E> + ?Sized, E>(v: &mut V, node: &%s) -> (r: Result<V::Value, E>)\n    ensures\n        %s\n%s\n" % (
+                m_by_type[T], T, "\n        ".join(dens), dbody.replace("Self::Value", "V::Value").replace("self", "v"))
+            items.append(({"name": "Visitor", "method": m_by_type[T], "rel": "dsl/src/visitor.rs", "node": T, "default": True}, dtext, [
+                {"old": "fn %s(&mut self, node: &%s) -> Result<Self::Value, E>" % (m_by_type[T], T), "new": "free generic function over the visitor (`self` -> `v`)", "note": "std-equivalent: a provided trait method is a generic function of the implementor"}], dens))
+    # node types without a generated traversal: the default must not visit anything
+    derived = set(td["name"] for td in types)
+    all_derived = set(re.findall(r"impl (\w+) \{\s*pub fn recurse_visit\b", exp))
+    if emit_leaf_defaults:
+        for mname, ty in methods:
+            if ty in all_derived:
+                continue
+            d = default_method(exp_src, "Visitor", mname, ty)
+            if d is None or "recurse_visit" in d[1]:
+                continue
+            dens = ["r is Ok && final(v).log() == old(v).log(),"]
+            dtext = "pub fn default_%s<V: Visitor<E> + ?Sized, E>(v: &mut V, node: &%s) -> (r: Result<V::Value, E>)\n    ensures\n        %s\n%s\n" % (
+                mname, ty, "\n        ".join(dens), d[1].replace("Self::Value", "V::Value").replace("self", "v"))
+            items.append(({"name": "Visitor", "method": mname, "rel": "dsl/src/visitor.rs", "node": ty, "default": True}, dtext, [], dens))
     return common, items
+
+
+def default_method(exp_src, trait, mname, ty):
+    """(signature, body incl. braces) of the provided method `mname` of the expanded trait, or None"""
+    if mname is None:
+        return None
+    mm = re.search(r"pub trait " + trait + r"\s*<E>\s*\{", exp_src.m)
+    if not mm:
+        return None
+    close = exp_src.match_close(mm.end() - 1)
+    fm = re.search(r"fn\s+" + re.escape(mname) + r"\s*\(", exp_src.m[mm.end():close])
+    if not fm:
+        return None
+    a = mm.end() + fm.start()
+    bo = exp_src.m.find("{", a)
+    semi = exp_src.m.find(";", a)
+    if bo < 0 or (0 <= semi < bo):
+        return None
+    bc = exp_src.match_close(bo)
+    return exp_src.text[a:bo], exp_src.text[bo:bc + 1]
 
 
 # --------------------------------------------------------------------------
@@ -369,7 +418,7 @@ def fold_vec_loop(src_expr, src_spec, method, ty, extra_inv):
 FOLD_VEC_RX = r"\{\s*let folds:\s*Result<Vec<_>,\s*E>\s*=\s*%s\s*\.into_iter\(\)\s*\.map\(\|x\|\s*f\.(\w+)\(x\)\)\s*\.collect\(\);\s*%s\s*\}"
 
 
-def generate_fold(types, exp):
+def generate_fold(types, exp, leaf_ok=(), emit_leaf_defaults=False):
     methods = fold_methods(exp)
     m_by_type = {}
     for mname, ty in methods:
@@ -535,4 +584,28 @@ def generate_fold(types, exp):
         text = "\n".join(spec) + ("\n" if spec else "")
         text += "impl %s {\n%s\n    ensures\n        %s\n%s\n}\n" % (T, sig2, "\n        ".join(ens), body)
         items.append((td, text, rewrites, ens))
+        # the trait's default method for this node type (fold.rs `dispatch!`)
+        d = default_method(exp_src, "Fold", m_by_type.get(T), T)
+        if d is not None:
+            dsig, dbody = d
+            dens = [re.sub(r"\bself\b", "node", e) for e in ens]
+            has_kids = any((not c["ignored"]) and c["cont"] != "Unit" for c in td["children"])
+            if (not has_kids or T in leaf_ok) and "recurse_fold" not in dbody:
+                dens = ["r == Ok::<%s, E>(node) && final(f).log() == old(f).log()," % T]
+            dtext = "pub fn default_%s<F: Fold<E> + ?Sized, E>(f: &mut F, node: %s) -> (r: Result<%s, E>)\n    ensures\n        %s\n%s\n" % (
+                m_by_type[T], T, T, "\n        ".join(dens), re.sub(r"\bself\b", "f", dbody))
+            items.append(({"name": "Fold", "method": m_by_type[T], "rel": "dsl/src/fold.rs", "node": T, "default": True}, dtext, [
+                {"old": "fn %s(&mut self, node: %s) -> Result<%s, E>" % (m_by_type[T], T, T), "new": "free generic function over the folder (`self` -> `f`)", "note": "std-equivalent: a provided trait method is a generic function of the implementor"}], dens))
+    all_derived = set(re.findall(r"impl (\w+) \{\s*pub fn recurse_fold\b", exp))
+    if emit_leaf_defaults:
+        for mname, ty in methods:
+            if ty in all_derived:
+                continue
+            d = default_method(exp_src, "Fold", mname, ty)
+            if d is None or "recurse_fold" in d[1]:
+                continue
+            dens = ["r == Ok::<%s, E>(node) && final(f).log() == old(f).log()," % ty]
+            dtext = "pub fn default_%s<F: Fold<E> + ?Sized, E>(f: &mut F, node: %s) -> (r: Result<%s, E>)\n    ensures\n        %s\n%s\n" % (
+                mname, ty, ty, "\n        ".join(dens), re.sub(r"\bself\b", "f", d[1]))
+            items.append(({"name": "Fold", "method": mname, "rel": "dsl/src/fold.rs", "node": ty, "default": True}, dtext, [], dens))
     return common, items
